@@ -262,5 +262,31 @@ pub fn run(args: &[String]) {
             }
         }
     }
+    // C15: configuring read-only caches on paths that do not exist creates nothing, and neither do lookups through them
+    if wants("C15") {
+        for shards in [1usize, 3] {
+            evals += 1;
+            let root = tempfile::tempdir().unwrap();
+            let missing = root.path().join("not").join("there");
+            let mut b = CacheBuilder::new();
+            b.plain_writer(root.path().join("w"), 1000);
+            b.reader(&missing, shards);
+            let cache = b.build();
+            let _ = cache.get(key_of("alpha"));
+            let _ = cache.touch(key_of("alpha"));
+            let mut rb = kismet_cache::ReadOnlyCacheBuilder::new();
+            rb.cache(&missing, shards);
+            let ro = rb.build();
+            let _ = ro.get(key_of("alpha"));
+            let _ = ro.touch(key_of("alpha"));
+            if root.path().join("not").exists() {
+                println!(
+                    "{{\"found\":{{\"property\":\"C15\",\"front\":\"read-only cache with {} shard(s) on a missing path\",\"history\":\"build; get; touch\",\"what\":\"the read-only directory (or an ancestor) was created\"}},\"evaluations\":{},\"distinct_nontrivial\":{}}}",
+                    shards, evals, evals
+                );
+                return;
+            }
+        }
+    }
     println!("{{\"found\":null,\"evaluations\":{},\"distinct_nontrivial\":{}}}", evals, evals);
 }
